@@ -39,13 +39,50 @@ snd = body_of(rd("client/transport/channel.rs"), "send")
 due_waits = in_order(snd, ["should_renew_security_token", "issue_channel_lock.lock().await", "should_renew_security_token",
                            "begin_issue_or_renew_secure_channel", ".send().await", "end_issue_or_renew_secure_channel",
                            "drop(guard)", "Request::new"]) and "try_lock" not in snd
+# client: the renew request installs its fresh nonce in the channel (the keys the client derives when the
+# response arrives are built from it), and the switch (token, server nonce, keys) happens inside ONE write
+# lock of the channel, in end_issue_or_renew_secure_channel only
+cbg = body_of(rd("client/transport/state.rs"), "begin_issue_or_renew_secure_channel")
+begin_nonce = in_order(cbg, ["trace_write_lock!(self.secure_channel)", "random_nonce()", "set_local_nonce(client_nonce", "client_nonce,"]) \
+    and "derive_keys" not in cbg and "set_security_token" not in cbg
+wl = cst.find("trace_write_lock!(self.secure_channel)")
+client_atomic = wl >= 0 and cst.count("trace_write_lock!(self.secure_channel)") == 1 and \
+    in_order(cst[wl:], ["set_security_token", "set_remote_nonce_from_byte_string(&response.server_nonce)", "derive_keys"]) \
+    and "derive_keys" not in cst[:wl]
+# server: a renewal derives the keys from the nonce of THIS request and a fresh server nonce which is the one
+# returned in the response; a renewal with the previous nonce is refused; the transport calls the service under
+# the write lock of the channel
+server_nonces = in_order(svc, ["BadNonceInvalid", "set_remote_nonce_from_byte_string(&request.client_nonce)",
+                               "create_random_nonce()", "derive_keys()", "server_nonce: secure_channel.local_nonce_as_byte_string()"]) \
+    and svc.count("derive_keys") == 1
+tcp = rd("server/comms/tcp_transport.rs")
+posc = body_of(tcp, "process_open_secure_channel")
+server_locked = in_order(posc, ["trace_write_lock!(self.secure_channel)", "open_secure_channel("])
+# where messages are secured: the server's writer task secures a response when it takes it from its queue
+# (send_message only queues); the client's send buffer secures a chunk when the transport task encodes it
+# (Request::send only queues) -- the two windows the known classes live in
+wl_task = body_of(tcp, "spawn_writing_loop_task")
+mw = body_of(rd("core/comms/message_writer.rs"), "write")
+server_late = in_order(wl_task, ["receiver.recv().await", "trace_read_lock!(write_state.secure_channel)", "send_buffer.write("]) \
+    and in_order(mw, ["Chunker::encode", "apply_security"]) and "apply_security" not in body_of(tcp, "send_message")
+buf = rd("client/transport/buffer.rs")
+req_send = body_of(rd("client/transport/state.rs"), "send")
+client_late = "apply_security" in body_of(buf, "encode_next_chunk") and "apply_security" not in req_send and "Chunker" not in req_send
+# the receive paths call the one verification routine (no second, token-aware path)
+ccore = rd("client/transport/core.rs")
+one_verify = ccore.count("verify_and_remove_security(") == 1 and tcp.count("verify_and_remove_security(") == 1 \
+    and "verify_and_remove_security_forensic(src, None)" in sc
 out = "(* GENERATED by tools/translate/c14_facts.py — do not edit *)\n"
 for n, v in [("single_key_slot", single), ("server_switches_on_request", server_sw),
              ("client_switches_on_response", client_sw), ("no_token_id_check_on_receive", no_tok),
-             ("due_request_waits_for_renewal", due_waits)]:
+             ("due_request_waits_for_renewal", due_waits),
+             ("renew_request_installs_client_nonce", begin_nonce), ("client_switch_is_one_locked_step", client_atomic),
+             ("server_renew_uses_fresh_nonces", server_nonces), ("server_switch_under_channel_lock", server_locked),
+             ("server_secures_when_written", server_late), ("client_secures_when_dequeued", client_late),
+             ("single_verification_path", one_verify)]:
     out += "Definition %s : bool := %s.\n" % (n, "true" if v else "false")
 path = os.path.join(V, "coq/Gen/C14Facts.v")
 try: old = open(path).read()
 except FileNotFoundError: old = None
 if old != out: open(path, "w").write(out)
-print("c14_facts:", single, server_sw, client_sw, no_tok, due_waits)
+print("c14_facts:", single, server_sw, client_sw, no_tok, due_waits, begin_nonce, client_atomic, server_nonces, server_locked, server_late, client_late, one_verify)
